@@ -1,6 +1,7 @@
 package mon
 
 import (
+	"os"
 	"context"
 	"fmt"
 	"runtime"
@@ -189,7 +190,7 @@ func runC15(c *core.Ctx, res *core.Result) {
 		return
 	}
 	defer proxy.Close()
-	var peers []*rawPeer
+	var peers, badPeers []*rawPeer
 	defer func() {
 		for _, p := range peers {
 			p.stop()
@@ -232,6 +233,16 @@ func runC15(c *core.Ctx, res *core.Result) {
 			return
 		}
 		peers = append(peers, p)
+		badPeers = append(badPeers, p)
+		if scen == "noread" {
+			// several of them: each one's end-of-connection handling is exercised when they are cut off below
+			for i := 0; i < 4; i++ {
+				if q, err := startRawPeerFrom(paddr, scen, badListen, from); err == nil {
+					peers = append(peers, q)
+					badPeers = append(badPeers, q)
+				}
+			}
+		}
 	case "flapping":
 		fwg.Add(1)
 		frr := r.Derive(4242)
@@ -353,7 +364,13 @@ loop:
 		return
 	}
 	// topology: a peer whose connection ended must disappear
-	if scen == "flapping" || scen == "proxy_cut" {
+	if scen == "noread" {
+		// the stalled peers (each with a backlog the primary could not deliver) are cut off now
+		for _, p := range badPeers {
+			p.stop()
+		}
+	}
+	if scen == "flapping" || scen == "proxy_cut" || scen == "noread" {
 		deadline := time.Now().Add(3*hbTimeout + 2*time.Second)
 		gone := false
 		var listed []string
@@ -363,12 +380,15 @@ loop:
 			bad := 0
 			for _, ri := range reps {
 				listed = append(listed, fmt.Sprintf("%s(available=%v)", ri.Address, ri.Available))
-				if scen == "flapping" && ri.Address == badListen && ri.Available {
+				if (scen == "flapping" || scen == "noread") && ri.Address == badListen && ri.Available {
 					bad++
 				}
 				if scen == "proxy_cut" && realRep != nil && ri.Available && !strings.HasPrefix(ri.Address, "127.0.0.1:71") {
 					bad++
 				}
+			}
+			if os.Getenv("VERIF_DEBUG_C15") != "" {
+				fmt.Fprintf(os.Stderr, "topology look: bad=%d listed=%v\n", bad, listed)
 			}
 			if bad == 0 {
 				gone = true
